@@ -763,6 +763,20 @@ class Program:
             nm = self.w.model_targets.get(self.meta_of(ref)[0], self.w.model_target)
             dref = "@%d" % self.w.addr[nm]
             dobj = self.w.live[self.w.addr[nm]]
+            if rng.random() < 0.35:
+                # the other call forms of `Model.forward`: keyword, positional + keyword, two positional, wrong keyword
+                arg = list(o._non_default_args)[0]
+                # (the heap encodes the argument of an ORIGINAL model by an opaque id, whatever its Python name is)
+                aid = {"A": len(NAME_POOL) + 5, "B": len(NAME_POOL) + 6}.get(self.label_of.get(int(ref[1:])), 9998) if ref.startswith("@") \
+                    else (name_id(arg) if name_id(arg) is not None else 9998)
+                form = rng.choice(["kw", "kw", "pos+kw", "two", "wrongkw"])
+                if form == "kw":
+                    return ("applyp", ref, o, {arg: dobj}, f"-:{aid}={dref}", [])
+                if form == "pos+kw":
+                    return ("applyp", ref, o, {arg: dobj}, f"{dref}:{aid}={dref}", [dobj])
+                if form == "two":
+                    return ("applyp", ref, o, {}, f"{dref},{dref}:.", [dobj, dobj])
+                return ("applyp", ref, o, {"zz_wrong": dobj}, f"-:9999={dref}", [])
             return ("apply", ref, o, dref, dobj)
         if L == "?":
             return None
@@ -781,6 +795,21 @@ class Program:
             kinds = ["cond"] * 4 + ["logd"] * 3 + ["grad", "grad", "sample", "sample1", "samplerng", "pdf", "tolik", "tolik", "tolik", "cond0",
                      "condbad", "mkjoint", "fd", "fd"]
         kind = rng.choice(kinds)
+        if L in ("d", "n", "J") and names and rng.random() < 0.12 and all(n in self.w.vals for n in names):
+            # positional form: the first k parameter names in order (for a distribution the last one is the main parameter),
+            # sometimes one argument too many, sometimes a keyword for a later / the same variable
+            k = rng.randint(1, len(names) + (1 if rng.random() < 0.15 else 0))
+            if L in ("d", "n") and k == len(names) and rng.random() < 0.5:
+                k = max(1, k - 1)
+            codes = [rng.randint(0, 1) for _ in range(k)]
+            pos = [self.w.vals[names[min(i, len(names) - 1)]][c] for i, c in enumerate(codes)]
+            kw, txt = {}, "."
+            r = rng.random()
+            if r < 0.25 and k < len(names):
+                kw, txt = self.kw_for([names[k]])
+            elif r < 0.4:
+                kw, txt = self.kw_for([names[rng.randrange(min(k, len(names)))]])        # given both ways: refused
+            return ("condp", ref, o, kw, ".".join(str(c + 1) for c in codes) + ":" + txt, pos)
         if kind == "cond":
             if not names:
                 kind = "cond0"
@@ -868,6 +897,8 @@ class Program:
             with quiet():
                 if kind == "cond":
                     res = op[2](**op[3])
+                elif kind in ("condp", "applyp"):
+                    res = op[2](*op[5], **op[3])
                 elif kind == "logd":
                     res = op[2].logd(**op[3])
                 elif kind == "grad":
@@ -1025,6 +1056,10 @@ class Program:
             kind = op[0]
             if kind == "cond":
                 self.ops_txt.append(f"c:{op[1]}:{op[4]}")
+            elif kind == "condp":
+                self.ops_txt.append(f"p:{op[1]}:{op[4]}")
+            elif kind == "applyp":
+                self.ops_txt.append(f"q:{op[1]}:{op[4]}")
             elif kind == "logd":
                 self.ops_txt.append(f"l:{op[1]}:{op[4]}")
             elif kind == "grad":
@@ -1063,18 +1098,18 @@ class Program:
                     self.caller_bad = (k, [nm for nm in now if now[nm] != caller0[nm]])
                     caller0 = now
             # copy keeps name (oracle): the result of conditioning a named density carries the same name
-            if kind in ("cond", "tolik") and not isinstance(res, Exception) and letter(cuqi, res) in ("d", "n", "r", "L", "E") \
+            if kind in ("cond", "condp", "tolik") and not isinstance(res, Exception) and letter(cuqi, res) in ("d", "n", "r", "L", "E") \
                     and letter(cuqi, op[2]) in ("d", "n", "r", "L", "E"):
                 n0, n1 = _try(lambda: op[2].name), _try(lambda: res.name)
                 if isinstance(n1, Exception) or n0 != n1:
                     self.name_bad.append((k, repr(n0), repr(n1)))
-            if not isinstance(res, Exception) and kind in ("cond", "tolik", "apply", "mkjoint") and letter(cuqi, res) != "?":
+            if not isinstance(res, Exception) and kind in ("cond", "condp", "tolik", "apply", "applyp", "mkjoint") and letter(cuqi, res) != "?":
                 if not any(res is x for _, x in self.pool) and not any(res is x for x in w.live.values()):
                     self.pool.append((k, res))
                     if kind == "cond":
                         root, env0 = self.meta_of(op[1])
                         self.meta[k] = (root, {**env0, **op[3]})
-                    elif kind == "apply":
+                    elif kind in ("apply", "applyp"):
                         self.meta[k] = (self.meta_of(op[1])[0], {})
                     self.made[k] = (snapshot(res), self.beh(res, *self.meta.get(k, (None, None))))
                     self.made0[k] = self.made[k][1]
@@ -1083,7 +1118,7 @@ class Program:
             if check_every_op and self.first_bad is None:
                 # structure of every original after every op; the (costlier) behavioural fingerprint after every op of a
                 # stepwise program, else after every third op, after any op with an escaping write, and at the end
-                self.check_originals(k, behave=(self.behave_every_op or kind == "apply" or k % 3 == 2 or bool(rec["esc"] or rec["benign"])))
+                self.check_originals(k, behave=(self.behave_every_op or kind in ("apply", "applyp", "condp") or k % 3 == 2 or bool(rec["esc"] or rec["benign"])))
             if check_every_op:
                 self.check_pool(k)
         if self.first_bad is None:
@@ -1358,8 +1393,91 @@ class InterleaveProgram(Program):
         return (kind, "$%d" % k, o, kw, txt)
 
 
-PROGRAM_CLASSES = {0: Program, 1: StepwiseProgram, 2: RejoinProgram, 3: DenseProgram, 4: InterleaveProgram}
-CLASS_NAMES = {Program: None, StepwiseProgram: "stepwise", RejoinProgram: "rejoin", DenseProgram: "dense", InterleaveProgram: "interleave"}
+class ReduceProgram(Program):
+    """structured generator for the rarely hit branches: a joint conditioned on everything but ONE variable (Posterior when it
+    has one child, MultipleLikelihoodPosterior when it has several, re-conditioned distribution when it has none), on
+    everything but two (joint returned), on everything (only evaluated densities left); then logd / gradient / empty call
+    (`Posterior()`, `MultipleLikelihoodPosterior()`) on the reduced objects, interleaved with conditioning / to_likelihood /
+    logd / sample on the Lognormal and the RegularizedGaussian and on their copies"""
+    pool_checks = None
+    behave_every_op = True
+
+    def __init__(self, cuqi, tracer, rng, thorough, idx, length=None, script=None):
+        super().__init__(cuqi, tracer, rng, thorough, idx, length=length, script=script)
+        if length is None:
+            self.length = rng.randint(9, 13)
+        self.stage = 0
+
+    def choose(self):
+        cuqi, rng, w = self.cuqi, self.rng, self.w
+        self.stage += 1
+        if self.stage <= 3:
+            lab = rng.choice(["J", "J", "J", "J3", "J2"])
+            J = w.live[w.addr[lab]]
+            names = list(J.get_parameter_names())
+            nchild = {n: 0 for n in names}
+            if lab == "J":
+                for v in w.vs:
+                    for sp in v.attrs.values():
+                        for par in sp.parents:
+                            if par in nchild:
+                                nchild[par] += 1
+            mode = rng.choice(["one", "one", "one", "one", "two", "all"])
+            if mode == "one":
+                multi = [n for n in names if nchild[n] >= 2]
+                keep = [rng.choice(multi)] if (multi and rng.random() < 0.7) else [rng.choice(names)]
+            elif mode == "two" and len(names) >= 2:
+                keep = rng.sample(names, 2)
+            else:
+                keep = []
+            kw, txt = self.kw_for([n for n in names if n not in keep])
+            return ("cond", "@%d" % w.addr[lab], J, kw, txt) if kw is not None else None
+        if self.stage % 2 == 0:
+            cands = [(k, o) for k, o in self.pool if letter(cuqi, o) in ("P", "M", "d", "J", "L")]
+            if not cands:
+                return None
+            k, o = rng.choice(cands)
+            L = letter(cuqi, o)
+            names = _try(lambda: list(o.get_parameter_names()))
+            if isinstance(names, Exception):
+                return None
+            kind = rng.choice(["logd", "logd", "grad", "cond0", "cond0"] if L in ("P", "M") else ["logd", "cond0", "cond"])
+            if kind == "cond0":
+                return ("cond", "$%d" % k, o, {}, ".")
+            if kind == "cond" and names:
+                kw, txt = self.kw_for(rng.sample(names, 1))
+                return ("cond", "$%d" % k, o, kw, txt) if kw is not None else None
+            kw, txt = self.kw_for(names)
+            if kw is None or (kind == "grad" and len(names) != 1):
+                return None
+            return (kind, "$%d" % k, o, kw, txt)
+        # Lognormal / RegularizedGaussian and their copies
+        roots = [("@%d" % w.addr[lab], w.live[w.addr[lab]]) for lab in ("ln", "rg")]
+        derived = [("$%d" % k, o) for k, o in self.pool if letter(cuqi, o) in ("n", "r")]
+        ref, o = rng.choice(roots + derived * 2)
+        names = _try(lambda: list(o.get_parameter_names()))
+        if isinstance(names, Exception):
+            return None
+        kind = rng.choice(["cond", "cond", "cond0", "cond0", "tolik", "logd", "sample" if letter(cuqi, o) == "n" else "logd"])
+        if kind == "cond" and len(names) > 1:
+            kw, txt = self.kw_for(names[:-1])
+            return ("cond", ref, o, kw, txt) if kw is not None else None
+        if kind in ("cond", "cond0"):
+            return ("cond", ref, o, {}, ".")
+        if kind == "tolik":
+            nm = _try(lambda: o.name)
+            if isinstance(nm, Exception) or nm not in w.vals:
+                return None
+            k = rng.randint(0, 1)
+            return ("tolik", ref, o, w.vals[nm][k], k + 1)
+        if kind == "sample":
+            return ("sample", ref, o) if len(names) == 1 else None
+        kw, txt = self.kw_for(names)
+        return ("logd", ref, o, kw, txt) if kw is not None else None
+
+
+PROGRAM_CLASSES = {0: Program, 1: StepwiseProgram, 2: RejoinProgram, 3: DenseProgram, 4: InterleaveProgram, 5: ReduceProgram}
+CLASS_NAMES = {Program: None, StepwiseProgram: "stepwise", RejoinProgram: "rejoin", DenseProgram: "dense", InterleaveProgram: "interleave", ReduceProgram: "reduce"}
 
 
 # ============================================================================ shrinking (failing-input search)
@@ -1523,10 +1641,10 @@ MODEL_BENIGN = {"g._variable_name", "d._mutable_vars", "n._mutable_vars", "r._mu
                 "g._coefs", "g._coefs_inverse", "g._fun_shape"}
 
 
-def run_programs(ctx, cuqi, tracer, n, thorough, n_step=0, n_rejoin=0, n_dense=0, n_inter=0):
+def run_programs(ctx, cuqi, tracer, n, thorough, n_step=0, n_rejoin=0, n_dense=0, n_inter=0, n_reduce=0):
     progs = []
     idxs = list(range(n)) + [100000 + i for i in range(n_step)] + [200000 + i for i in range(n_rejoin)] \
-        + [300000 + i for i in range(n_dense)] + [400000 + i for i in range(n_inter)]
+        + [300000 + i for i in range(n_dense)] + [400000 + i for i in range(n_inter)] + [500000 + i for i in range(n_reduce)]
     for idx in idxs:
         rng = random.Random(f"C11-{ctx.seed}-{idx}")
         try:
@@ -1550,15 +1668,23 @@ def run_programs(ctx, cuqi, tracer, n, thorough, n_step=0, n_rejoin=0, n_dense=0
         if p.ops_txt:
             progs.append(p)
     outs = ctx.lean.drive([p.line() for p in progs])
-    hist = {}
+    hist, rhist, phist = {}, {}, {}
     for p, out in zip(progs, outs):
         desc = {"program": p.idx, "graph": p.w.desc(), "ops": p.ops_desc}
         ctx.case("program:" + (CLASS_NAMES[type(p)] or p.w.shape),
                  {"program": p.idx, "seed": ctx.seed, "graph": p.w.desc(), "n_ops": len(p.ops_txt)})
         for r in p.impl:
             hist[r["kind"][0]] = hist.get(r["kind"][0], 0) + 1
+            if isinstance(p, ReduceProgram):
+                rhist[r["kind"][0]] = rhist.get(r["kind"][0], 0) + 1
+        for dsc, r in zip(p.ops_desc, p.impl):
+            if dsc["op"] in ("condp", "applyp"):
+                kk = dsc["op"] + ":" + r["kind"][0]
+                phist[kk] = phist.get(kk, 0) + 1
         judge(ctx, p, out, desc)
     ctx.extra_cov["op_result_kinds"] = hist
+    ctx.extra_cov["reduce_program_result_kinds"] = rhist
+    ctx.extra_cov["positional_ops_result_kinds"] = phist
     return progs
 
 
@@ -2047,6 +2173,9 @@ def run(ctx):
     # lazily inferred default geometry (Model/C11_geom.lean, `geo` protocol): tie + history-independence oracle
     from harness.props import c11_geom
     c11_geom.geometry_programs(ctx, cuqi, 30 if not thorough else 600, thorough)
+    # the conditioning call stream of the real Gibbs samplers vs the model's `streamOps` (Model/C11_gibbs.lean)
+    from harness.props import c11_gibbs
+    c11_gibbs.gibbs_streams(ctx, cuqi, thorough)
     tracer = Tracer(cuqi)
     tracer.install()
     try:
@@ -2054,7 +2183,7 @@ def run(ctx):
         sc = 1 if not thorough else ctx.scale
         q = not thorough
         run_programs(ctx, cuqi, tracer, n, thorough, n_step=(18 if q else 13 * sc), n_rejoin=(12 if q else 9 * sc),
-                     n_dense=(12 if q else 9 * sc), n_inter=(12 if q else 9 * sc))
+                     n_dense=(12 if q else 9 * sc), n_inter=(12 if q else 9 * sc), n_reduce=(14 if q else 9 * sc))
         sampler_scenarios(ctx, cuqi, tracer, thorough)
         deep_chains(ctx, cuqi)
         scope_scenarios(ctx, cuqi)
